@@ -658,7 +658,7 @@ fn check_in(ctx: &Ctx, lab: &CobLab, c: &Case, clean_only: bool) -> CaseResult {
 }
 
 fn run(ctx: &Ctx) {
-    ctx.run("proposal-rounds", rounds_strategy(), ctx.cases(480, 20_000), |c: &Case| check(ctx, c));
-    ctx.run("histories", case_strategy(12), ctx.cases(320, 15_000), |c: &Case| check(ctx, c));
-    ctx.run("short-histories", case_strategy(5), ctx.cases(160, 5_000), |c: &Case| check(ctx, c));
+    ctx.run("proposal-rounds", rounds_strategy(), ctx.cases(480, 6_000), |c: &Case| check(ctx, c));
+    ctx.run("histories", case_strategy(12), ctx.cases(320, 4_000), |c: &Case| check(ctx, c));
+    ctx.run("short-histories", case_strategy(5), ctx.cases(160, 2_000), |c: &Case| check(ctx, c));
 }
